@@ -4,11 +4,15 @@
 (* satisfies WholeFrames, AfterClose and InOrder?                             *)
 (*                                                                            *)
 (* trace.ndjson holds one line per schedule:                                  *)
-(*   {"case":n, "prog":{"msgs":[[b,..],..],"ctl":[[op,..],..],"closer":b},    *)
+(*   {"case":n, "prog":{"msgs":[[b,..],..],"hold":[[n,..],..],"ctl":[[op,..],..],*)
+(*                      "rd":[op,..],"closer":b},                             *)
 (*    "ev":[event,..], "frames":[{"cls":c,"w0":i,"w1":j},..], "delivered":[m,..]} *)
 (* An event has the fields ev, proc, call, frame, part, cls, ok, res:         *)
 (*   begin   the application of `proc` makes call number `call` (recorded by  *)
-(*           the scheduler BEFORE the goroutine is told to make the call)     *)
+(*           the scheduler BEFORE the goroutine is told to make the call; for *)
+(*           R: before the peer's frame is put on the transport)              *)
+(*   resume  the application of D, which had paused with its message open,    *)
+(*           is let go on (recorded by the scheduler before it does)          *)
 (*   twrite  one net.Conn.Write of `proc`, in the transport's total order;    *)
 (*           frame/part in {"hdr","extra","ctl"} from the tokenisation of the *)
 (*           process' own byte stream, cls the class of the frame header      *)
@@ -16,7 +20,8 @@
 (*           an extra; "bad"/"foreign.." never accepted); ok = it succeeded   *)
 (*   close   net.Conn.Close by `proc`, same total order                       *)
 (*   ret     call number `call` of `proc` returned class `res` ("nil",        *)
-(*           "closesent", "timeout", "other"; recorded some                   *)
+(*           "closesent", "timeout", "other"; "any" for a default handler of  *)
+(*           the package, which does not show its result; recorded some       *)
 (*           time AFTER it returned: accepted once the model's call returned) *)
 (*   end     every goroutine is back                                          *)
 (* frames  = the replayer's RFC 6455 tokenizer over the concatenated bytes of *)
@@ -25,9 +30,9 @@
 (*           (0 = not the payload of any message sent)                        *)
 (*                                                                            *)
 (* Observed events are matched by the actions of WsConc; the steps the        *)
-(* transport does not see (Prep, Acquire, Check, SetLatch, Release, Return)   *)
-(* are interleaved freely.  A schedule is accepted iff all its events are     *)
-(* consumed.  Every schedule is an initial state of ONE TLC run; the          *)
+(* transport does not see (Prep, Acquire, Check, SetLatch, Fatal, Release,    *)
+(* Return) are interleaved freely.  A schedule is accepted iff all its events *)
+(* are consumed.  Every schedule is an initial state of ONE TLC run; the          *)
 (* high-water mark of consumed events per schedule is kept with TLCSet (run   *)
 (* with -workers 1) and reported by the POSTCONDITION as                      *)
 (*   <<"TRACE", "[[consumed, total], ...]">>.                                 *)
@@ -60,7 +65,12 @@ TWriteEv(e) == /\ e.ev = "twrite"
                /\ e.cls = WriteCls(e.proc)
                /\ e.ok = ~closed
                /\ TWrite(e.proc)
-               /\ WholeFrames' /\ AfterCloseWire' /\ InOrder'
+               /\ WholeFrames' /\ AfterCloseWire' /\ InOrder' /\ MsgIntact'
+
+TResume(e) == /\ e.ev = "resume"
+              /\ e.proc = "D"
+              /\ e.call = call["D"]
+              /\ Resume
 
 TCloseEv(e) == /\ e.ev = "close"
                /\ e.proc = "X"
@@ -69,7 +79,7 @@ TCloseEv(e) == /\ e.ev = "close"
 TRet(e) == /\ e.ev = "ret"
            /\ e.proc \in Procs
            /\ Len(res[e.proc]) >= e.call
-           /\ res[e.proc][e.call].r = e.res
+           /\ e.res # "any" => res[e.proc][e.call].r = e.res
            /\ UNCHANGED vars
 
 \* the frames the model's wire consists of (WholeFrames holds: guard of TWriteEv)
@@ -83,7 +93,7 @@ ModelFrames(k) ==
                 ELSE <<[cls |-> "partial", w0 |-> k, w1 |-> k]>>
        ELSE IF e.part = "hdr"
          THEN <<[cls |-> DataCls(e.call, e.frame), w0 |-> k, w1 |-> k]>> \o ModelFrames(k + 1)
-       ELSE <<[cls |-> Code(prog.ctl[KIdx(e.proc)][e.call]), w0 |-> k, w1 |-> k]>> \o ModelFrames(k + 1)
+       ELSE <<[cls |-> Code(CtlSeq(e.proc)[e.call]), w0 |-> k, w1 |-> k]>> \o ModelFrames(k + 1)
 
 \* the complete messages are a prefix 1..n of the program (InOrder)
 Prefix(n) == [m \in 1..n |-> m]
@@ -101,7 +111,7 @@ TInit == /\ s \in 1..Len(Trace)
          /\ TLCSet(s, 0)
 
 TNext == \/ /\ i <= Len(Trace[s].ev)
-            /\ LET e == Ev(i) IN TBegin(e) \/ TWriteEv(e) \/ TCloseEv(e) \/ TRet(e) \/ TEnd(e)
+            /\ LET e == Ev(i) IN TBegin(e) \/ TResume(e) \/ TWriteEv(e) \/ TCloseEv(e) \/ TRet(e) \/ TEnd(e)
             /\ i' = i + 1 /\ s' = s
             /\ TLCSet(s, Max(TLCGet(s), i))
          \/ /\ \E p \in Procs : Internal(p)
